@@ -1,6 +1,13 @@
 CFG = dict(
     lean_modules=["SaramaVerif.Model.PartProd", "SaramaVerif.Model.Producer", "SaramaVerif.Props.C01", "SaramaVerif.Props.C02",
-                  "SaramaVerif.Model.BrokerProd", "SaramaVerif.Props.C02bp"],
+                  "SaramaVerif.Model.BrokerProd", "SaramaVerif.Props.C02bp",
+                  "SaramaVerif.Model.Pipeline", "SaramaVerif.Lemmas.C02sysView", "SaramaVerif.Lemmas.C02sysView2",
+                  "SaramaVerif.Lemmas.C02sysLive", "SaramaVerif.Lemmas.C02sysBP", "SaramaVerif.Lemmas.C02sysRep",
+                  "SaramaVerif.Lemmas.C02sysStepA", "SaramaVerif.Lemmas.C02sysStepB", "SaramaVerif.Lemmas.C02sysLog",
+                  "SaramaVerif.Lemmas.C02sysStepR", "SaramaVerif.Lemmas.C02sysStepD", "SaramaVerif.Lemmas.C02sysStepD2",
+                  "SaramaVerif.Lemmas.C02sysStepP", "SaramaVerif.Lemmas.C02sysStepP2", "SaramaVerif.Lemmas.C02sysStepP3",
+                  "SaramaVerif.Lemmas.C02sysFifo", "SaramaVerif.Lemmas.C02sysCons", "SaramaVerif.Lemmas.C02sysCons2",
+                  "SaramaVerif.Lemmas.C02sysCons3", "SaramaVerif.Props.C02sys"],
     lean_support=["SaramaVerif.Driver.ProducerTrace", "SaramaVerif.Model.IdemBroker"],
     model="C02",
     overlay=["sim", "c02"],
@@ -8,23 +15,26 @@ CFG = dict(
                        "Props.C02bp.bp_at_most_one_set_in_flight", "Props.C02bp.bp_partition_fifo", "Props.C02bp.bp_conservation",
                        "Props.C02bp.bp_quiet_after_failure", "Props.C02bp.bp_quiet_while_refused", "Props.C02bp.bp_bounces_in_order",
                        "Props.C02bp.bp_bounce_order_preserving", "Props.C02bp.step_fifo", "Props.C02bp.step_quiet", "Props.C02bp.run_inv",
-                       "Props.C02bp.bp_empty_set_needs_stale", "Props.C02bp.bp_stale_origin"],
+                       "Props.C02bp.bp_empty_set_needs_stale", "Props.C02bp.bp_stale_origin",
+                       "Props.C02sys.init_inv", "Props.C02sys.step_inv", "Props.C02sys.run_inv",
+                       "Props.C02sys.log_order_single_worker", "Props.C02sys.no_nil_deref_single_worker",
+                       "Props.C02sys.conservation_sys", "Props.C02sys.retry_path_fifo"],
     n={"quick": 800, "thorough": 15000, "search": 2000},
     thorough_seeds=3,
     timeout={"quick": 600, "thorough": 3000},
     level="proof",
     assumptions=[
-        "end-to-end log order (first copies in submission order, success offsets increasing) is decided per run by the oracle on the simulated partition logs; the Lean theorems cover the partition producer's level discipline (per-level FIFO, parking only below the high watermark), not the composition with broker workers and the retry queue",
+        "end-to-end log order is PROVED (log_order_single_worker) for the composed system model (submit / dispatcher / partition producer / broker worker / retry queue / broker log, any interleaving, leader moves that come back, lookup failures, stale and empty sets, connection errors, every Retry.Max >= 1) in which one partition uses one broker worker and the producer is not idempotent; a true hand-over of the partition to a SECOND live worker, several partitions sharing a worker, Retry.Max = 0 and the idempotent paths are decided per run by the oracle on the simulated partition logs only (statement kept as LogOrderGeneral); the composed system model itself is not trace-validated - its partition-producer and broker-worker components (reused unchanged) are",
         "Go channels deliver per-sender FIFO (assumed); the submitting goroutine of the harness is single",
     ],
     trusted_base=["hooks in /repo (build tag verif)", "simulated cluster harness/overlay/sim_cluster.go"],
     manifest=dict(
-        text="Partial proof + trace validation + oracle. Proved for every arrival sequence: the partition producer (the component that restores order after retries) emits the data messages of each retry level "
+        text="Proof (single-worker composition) + trace validation + oracle. Composed system model Model/Pipeline.lean (rank counter, dispatcher queue, partition producer = Model.PartProd.recv, broker workers = the full Model.BrokerProd.step, one FIFO retry path, leader, broker log, success offsets) with log_order_single_worker (success offsets increase with submission rank and first copies appear in rank order, for every schedule and fault choice with one worker per partition, Retry.Max >= 1), conservation_sys (every submitted id is in exactly one place), retry_path_fifo (any number of workers) and no_nil_deref_single_worker. Component theorems, for every arrival sequence: the partition producer (the component that restores order after retries) emits the data messages of each retry level "
              "in arrival order, parks messages only below the current high watermark, and on the chaser of the current level flushes exactly the parked levels downwards (pp_level_fifo, parked_only_below_hwm). "
              "Tie: every pp.recv event of the real partitionProducer is replayed through the Lean transducer and the real code's next actions (park / forward-or-fail / send chaser / consume chaser, ids and levels) "
              "must equal the model's. The end-to-end statement (log order = submission order across retries, leader moves, disconnects, every Retry.Max) is evaluated by the oracle on the simulated brokers' logs in "
-             "hundreds of fault-scripted scenarios per run; its composition proof (broker-worker lemmas + FIFO composition) is open and named in Props/C02.lean.",
-        note="Trusted: Lean kernel, hooks, sim cluster. Partial: composition into log_order not proved. Known findings: Retry.Max=0 and idempotent-mode reorderings.",
-        technique="Lean 4 proof of the partition-producer level discipline + transducer replay of hooked events + end-to-end order oracle on simulated logs",
+             "hundreds of fault-scripted scenarios per run; the general multi-worker composition is open (LogOrderGeneral).",
+        note="Trusted: Lean kernel, hooks, sim cluster. Partial: log order proved for one worker per partition (non-idempotent, Retry.Max >= 1); hand-over to a second live worker only observed. Known findings: Retry.Max=0 and idempotent-mode reorderings.",
+        technique="Lean 4 proof of log order for the composed pipeline model (single worker per partition) and of the partition-producer / broker-worker disciplines + transducer replay of hooked events + end-to-end order oracle on simulated logs",
     ),
 )
